@@ -60,11 +60,17 @@ patched = set()
 for p in patches:
     src = '/repo/' + p['file']
     s = open(changed.get(src) or src).read()
-    for old, new in p['replace']:
-        if s.count(old) != 1:
-            sys.stderr.write('mkoverlay: anchor %r occurs %d times in %s\n' % (old, s.count(old), src))
+    for item in p['replace']:
+        # an item is [old, new], or {"any": [[old, new], ...]}: the first alternative whose anchor occurs once
+        # (a hook that must go into either of two versions of a function, e.g. before and after a repair)
+        alts = item['any'] if isinstance(item, dict) else [item]
+        for old, new in alts:
+            if s.count(old) == 1:
+                s = s.replace(old, new)
+                break
+        else:
+            sys.stderr.write('mkoverlay: anchor %r occurs %d times in %s\n' % (alts[0][0], s.count(alts[0][0]), src))
             sys.exit(2)
-        s = s.replace(old, new)
     dst = os.path.join(outdir, p['file'].replace('/', '__'))
     open(dst, 'w').write(s)
     rep[src] = dst
